@@ -16,3 +16,10 @@ _c17["assumptions"] = _c17.get("assumptions", []) + [
     "client tie: synchronous peer (the harness waits until the engine has consumed a line before the client's next call); the searcher is an oracle read from the real engine's info line and checked for legality in the model engine's position; the engine's deadline is recorded, not acted on",
     "client tie: the context deadline handed to TEIGetMove is always `rem` away when asked (custom context), so deadline.Sub(time.Now()) = rem minus nanoseconds; rem values of at least 1 ms are chosen 0.5 ms above a millisecond boundary and a run whose movetime came out lower (machine stalled > 0.5 ms between two statements) is repeated",
 ]
+
+# C10 names the tei client's `position tps` line among its observation points: the client generator runs under C10 as well
+_c10 = PROPS["C10"]
+if "C17client" not in _c10.setdefault("generators", ["C10"]):
+    _c10["generators"].append("C17client")
+_c10["rule"] = (_c10.get("rule", "") + " || the tei client's `position tps` line (generator C17client, described under C17): the text the real Player.TEIGetMove writes is FormatTPS of "
+    "the position it was asked about and the engine's parsed position equals it - also for successive requests on one Player whose positions differ in the move number only").strip(" |")
